@@ -35,4 +35,10 @@ theorem internal_backoff_backoff_pinned : Gen.SnapTls.internal_backoff_backoff =
   (c!"(*Config).Backoff func(attempt uint) time.Duration", [c!"if attempt == 0 || bc.BaseDelay == 0 { return bc.BaseDelay }", c!"backoff, max := float64(bc.BaseDelay), float64(bc.MaxDelay)", c!"backoff *= math.Pow(bc.Multiplier, float64(attempt))", c!"backoff = math.Min(backoff, max)", c!"r := rand.New(rand.NewSource(time.Now().UnixNano()))", c!"backoff *= 1 + bc.Jitter*(r.Float64()*2-1)", c!"return time.Duration(backoff)"])
 ] : List (Str × List Str)) := rfl
 
+theorem internal_validate_validate_pinned : Gen.SnapTls.internal_validate_validate = ([
+  (c!"var", [c!"validate *validator.Validate"]),
+  (c!"init func()", [c!"validate = validator.New()"]),
+  (c!"Validate func() *validator.Validate", [c!"return validate"])
+] : List (Str × List Str)) := rfl
+
 end Ysshra.Bridge.SnapTls
